@@ -49,6 +49,10 @@ class Contract:
     quick_restricted: bool = False
     loop_invariants: dict = field(default_factory=dict)   # while-loop ordinal -> {"shapes": {...}, "inv": "..."}
     prove_in: str = "both"        # "thorough": the deductive part runs in the thorough tier only (bounded part in both)
+    def deductive_body_known(self):
+        """True when the contract is (or will be) proved against the body: its calls need no logging."""
+        return self.verify and self.deductive
+
     deductive: bool = True        # False: the contract is only checked natively (bounded), its body is not executed symbolically
 
 
@@ -617,6 +621,14 @@ def apply_contract_at_call(ctx, fr, path, f: FuncRef, contract: Contract, env, n
         if res is None:
             res = _fresh_result(ctx, p, f, contract, env)
         p.note(f"callee contract {contract.target}" + ("" if contract.verify else " (ASSUMED, not verified)"))
+        if "EXT" in p.ghost and not contract.deductive_body_known():
+            # calls that are only known through an assumed / bounded contract are recorded in the activation's call log
+            # like external calls: (target, arguments in signature order, result)
+            names = [a.arg for a in f.node.args.posonlyargs + f.node.args.args + f.node.args.kwonlyargs]
+            vals = [ctx.toV(env[n]).t for n in names if n in env and isinstance(env[n], (Val, ClassRef))]
+            rec = V.VTuple(smt.seq_of_list([V.VStr(z3.StringVal(contract.target.split(":")[1]))] + vals + [res.t]))
+            log = p.ghost["EXT"]
+            p.ghost["EXT"] = Val(V.VList(simp(z3.Concat(ctx.as_seq(p, log), z3.Unit(rec)))), ("list", None))
         yield p, res
 
 
@@ -685,7 +697,10 @@ def verify_contract(ctx, contract: Contract, prop: str):
     task.param_vals = {k: v for k, v in env.items() if k != "self"}
     # ghost state
     for g in contract.ghost:
-        path.ghost[g] = Val(V.VList(ctx.new("ghost_" + g, smt.SeqV)), ("list", None))
+        if g == "EXT":
+            path.ghost[g] = Val(V.VList(smt.EMPTY_SEQ), ("list", None))     # log of this activation's external calls
+        else:
+            path.ghost[g] = Val(V.VList(ctx.new("ghost_" + g, smt.SeqV)), ("list", None))
     # setup hook (extra assumptions about the symbolic pre-state, in spec code)
     if contract.setup is not None:
         outs = list(eval_clause(ctx, spec_mi, contract.setup, env, path))
